@@ -7,7 +7,7 @@ S->C  : identity batches over every coefficient of every band of the pyramid thr
         DWT1DInverse / DWTInverse, integer taps, exact comparison with the composed Ref operators;
         None levels compared on the signal's extent under both readings of "zeros".
 """
-from .. import dwtmodel, dwtchecks, stagetrace
+from .. import dwtmodel, dwtchecks, stagetrace, suitetrace
 from ..findings import Findings
 
 LEVEL = "model_checking"
@@ -28,6 +28,8 @@ def run(rep):
     dwtchecks.numeric_inverse_vs_pywt(rep, "C10", rep.tier)
     stagetrace.validate_dwt1(rep, "C10", rep.tier, "DWT1DInverse")
     stagetrace.validate_dwt2(rep, "C10", rep.tier, "DWTInverse")
+    suitetrace.validate_suite(rep, "C10", "DWT1DInverse")      # the calls of the repository's own tests
+    suitetrace.validate_suite(rep, "C10", "DWTInverse")
     rep.assumptions += ["TLC bounds in coverage.tlc_runs", "pywt.idwt with indicator taps pins Ref"]
 
 
